@@ -227,6 +227,9 @@ pub fn drive_mem(spec: &MemSpec, replicas: bool, source: &mut dyn OpSource) -> M
                     run.faults.backpressure += 1;
                 }
                 run.calls += 1;
+                if log_calls() {
+                    log_call(format!("{} src={} units cap={} -> read={} written={} out={:02x?}", spec.func.name(), pending.len(), cap, c.read, c.written, c.out));
+                }
                 let t = &mut run.transcript;
                 t.usize(pending.len());
                 t.usize(cap);
